@@ -389,7 +389,7 @@ func dnsQuery(id int, name string) []byte {
 func datagrams(r *hx.Rand, n int) []Input {
 	var out []Input
 	dg := func(svc string, b []byte) {
-		out = append(out, Input{Svc: svc, Stream: b, Mode: "datagram", Bare: svc == "dns-bare"})
+		out = append(out, Input{Svc: svc, Stream: b, Mode: "datagram"})
 	}
 	for i := 0; i < n; i++ {
 		switch r.Intn(5) {
@@ -421,7 +421,8 @@ func datagrams(r *hx.Rand, n int) []Input {
 			lines := ""
 			k := r.Range(1, 3)
 			for j := 0; j < k; j++ {
-				lines += r.PickStr([]string{"stats\r\n", "get a\r\n", "flush_all\r\n", "version\r\n", "get k1 k2\n"})
+				lines += r.PickStr([]string{"stats\r\n", "get a\r\n", "flush_all\r\n", "version\r\n", "get k1 k2\n",
+					"set k 0 0 3\r\nabc\r\n", "add key2 1 0 11\r\nhello\r\nworld\r\n", "set z 0 0 0\r\n\r\n"})
 			}
 			if r.Chance(1, 6) {
 				lines += "gets half"
@@ -431,10 +432,12 @@ func datagrams(r *hx.Rand, n int) []Input {
 				b = b[:r.Range(0, 8)]
 			}
 			dg("memcached-udp", b)
-		case 3:
-			dg("dns", dnsQuery(r.Range(0, 65535), r.PickStr([]string{"example.org", "a.b.c.test", "x"})))
-		case 4:
-			dg("dns-bare", dnsQuery(r.Range(0, 65535), r.PickStr([]string{"example.org", "a.b.c.test", "x"})))
+		case 3, 4:
+			q := dnsQuery(r.Range(0, 65535), r.PickStr([]string{"example.org", "a.b.c.test", "x", "www.long-label-example.co.uk"}))
+			if r.Chance(1, 8) {
+				q = q[:r.Range(0, 11)] // shorter than a header: Unpack fails, nothing to report
+			}
+			dg("dns", q)
 		}
 	}
 	return out
@@ -488,6 +491,16 @@ func generate(r *hx.Rand, tier string) []Input {
 	ins = append(ins, expand(stream{svc: "memcached", units: []string{"get " + long + "\r\n", "stats\r\n"}}, r, false, 6)...)
 	ins = append(ins, expand(stream{svc: "smtp", units: []string{"EHLO " + long + "\r\n", "NOOP\r\n"}}, r, false, 6)...)
 	ins = append(ins, expand(stream{svc: "redis", units: []string{resp("GET", long), resp("PING")}}, r, false, 6)...)
+	// array nesting at and beyond the depth bound (32)
+	for _, depth := range []int{31, 32, 33, 34, 40} {
+		ins = append(ins, expand(stream{svc: "redis", units: []string{resp("PING"), strings.Repeat("*1\r\n", depth) + "$1\r\nx\r\n", resp("INFO")}}, r, false, 4)...)
+	}
 	ins = append(ins, datagrams(r, nudp)...)
+	// LAST (a handler that never returns keeps spinning until the harness exits): storage
+	// commands over UDP whose data block is cut short or missing - the datagram connection
+	// never reports end of stream
+	hdr := "\x00\x01\x00\x00\x00\x01\x00\x00"
+	ins = append(ins, Input{Svc: "memcached-udp", Stream: []byte(hdr + "append k 0 0 5\r\nab"), Mode: "datagram"},
+		Input{Svc: "memcached-udp", Stream: []byte(hdr + "set k 0 0 5\r\n"), Mode: "datagram"})
 	return ins
 }
